@@ -14,7 +14,7 @@ def sh(cmd, **kw):
     return subprocess.run(cmd, shell=True, capture_output=True, text=True, **kw)
 
 def clean():
-    sh(f"git -C {REPO} checkout -- . && git -C {REPO} clean -fdq -- statime statime-linux")
+    sh(f"git -C {REPO} reset -q --hard HEAD && git -C {REPO} clean -fdq -- statime statime-linux")
 
 def repo_dirty():
     return sh(f"git -C {REPO} status --porcelain --untracked-files=no").stdout.strip() != ""
@@ -52,9 +52,7 @@ def main():
         if j["kind"] == "seeded":
             r = sh(f"git -C {REPO} apply {j['patch']}")
             applied = r.returncode == 0
-            if not applied:
-                r = sh(f"git -C {REPO} apply -3 {j['patch']}")
-                applied = r.returncode == 0
+
         else:
             p = os.path.join(REPO, j["file"])
             s = open(p).read()
